@@ -11,3 +11,45 @@ Definition params_match : bool :=
 
 Lemma repo_params_match : params_match = true.
 Proof. vm_compute. reflexivity. Qed.
+
+(* ---- the callers of UpdateValidator (go/ast inventory, coq/gen/C08Callers.v) ------------
+
+   Two calling conventions are in use: "copy" (the stored record is left alone, a
+   PartialCopy carries the new values: OUpdate, ODelegate) and "inplace" (a PartialCopy
+   is kept as the old value, the STORED record is written and passed as the new value:
+   OUpdateIn).  UpdateValidator must therefore work from its two arguments alone.
+   Pinned here: which call sites use the in-place convention and which fields they
+   write; every such field is either carried by the model's update record or not looked
+   at by StakeEqual and the statistics. *)
+From Coq Require Import String.
+From VF.gen Require Import C08Callers.
+
+Definition str_list_eqb (a b : list string) : bool := list_eqb String.eqb a b.
+Definition mem_str (x : string) (l : list string) : bool := existsb (String.eqb x) l.
+
+Definition inplace_callers : list (string * string * list string) :=
+  map (fun c => (c_file c, c_func c, c_fields c))
+      (filter (fun c => String.eqb (c_conv c) "inplace") repo_update_callers).
+
+Definition pinned_inplace : list (string * string * list string) :=
+  [("staking/endblock.go", "checkAndUpgradeValidatorsToYouV5", ["Ext"]);
+   ("staking/endblock.go", "rewardsToPool", ["Ext"; "RewardsDistributable"; "RewardsTotal"]);
+   ("staking/slash_youv5.go", "recoverFromExpiredExpelling", ["ExpelExpired"; "Expelled"]);
+   ("staking/take_effect_handler.go", "teDelegationSub", ["Status"])]%string.
+
+(* the fields of the model's update record (Model.upd) under their Go names *)
+Definition modelled_fields : list string :=
+  ["Role"; "Status"; "Token"; "Stake"; "SelfToken"; "SelfStake"; "RewardsDistributable"; "RewardsTotal"; "LastInactive"]%string.
+(* what Model.stake_equal / incr_stat / decr_stat read *)
+Definition model_stat_fields : list string := ["Role"; "Stake"; "Status"; "Token"]%string.
+
+Definition callers_pinned : bool :=
+  forallb (fun c => String.eqb (c_conv c) "copy" || String.eqb (c_conv c) "inplace") repo_update_callers
+  && list_eqb (fun x y => String.eqb (fst (fst x)) (fst (fst y)) && String.eqb (snd (fst x)) (snd (fst y))
+                          && str_list_eqb (snd x) (snd y)) inplace_callers pinned_inplace
+  && str_list_eqb repo_stat_fields model_stat_fields
+  && forallb (fun c => forallb (fun f => mem_str f modelled_fields || negb (mem_str f repo_stat_fields)) (c_fields c))
+             repo_update_callers.
+
+Lemma repo_callers_pinned : callers_pinned = true.
+Proof. vm_compute. reflexivity. Qed.
